@@ -1,11 +1,12 @@
-(* NEEDS: PropTree/PropModel.vo PropTree/YamlModel.vo *)
+(* NEEDS: PropTree/PropModel.vo PropTree/YamlModel.vo PropTree/HashModel.vo *)
 (* Extraction of the property-tree models (C13, C14).  Only ExtrOcamlBasic's directives are in
    effect; nat, positive, N, Z stay the extracted inductive types. *)
 Require Extraction.
 Require Import ExtrOcamlBasic.
 Require Import List NArith ZArith.
-Require Import LV.PropTree.PropModel LV.PropTree.YamlModel.
+Require Import LV.PropTree.PropModel LV.PropTree.YamlModel LV.PropTree.HashModel.
 Extraction Language OCaml.
 Extraction "models_prop.ml"
   step init_state quote_key parse scan
-  yaml_export yaml_import import_document yaml_rt_ideal.
+  yaml_export yaml_import import_document yaml_rt_ideal
+  h_step h_empty crc32c.
